@@ -8,6 +8,8 @@ mod lexer;
 #[cfg(test)]
 mod tests;
 mod validator;
+#[cfg(feature = "verif-hooks")]
+pub mod verif_hooks;
 
 use std::{
     borrow::Cow,
@@ -500,6 +502,13 @@ impl<B: Backend> Compiler<B, CompilerReady> {
                         tlds.into_iter().map(move |mut tld| {
                             tld.apply_tagging_environment(&header_ref.borrow().tagging_environment);
                             tld.set_module_header(header_ref.clone());
+                            #[cfg(feature = "verif-hooks")]
+                            verif_hooks::record(verif_hooks::Event::Lexed {
+                                module: header_ref.borrow().name.clone(),
+                                name: tld.name().clone(),
+                                kind: verif_hooks::tld_kind(&tld),
+                                parameterized: verif_hooks::tld_parameterized(&tld),
+                            });
                             tld
                         })
                     })
